@@ -919,9 +919,18 @@ def scenario(seed, root, kind):
             # (c) the connection is cut, both processes stay alive, the leader writes more than the buffer holds before the follower's retry
             # (5 s later): the SAME follower process is told ERR_NOT_FOUND and must drop its state before the transfer from scratch
             wl.run(run.rnd.randrange(10, 30))
+            # three holds taken in one second with one expiry share a bucket of the follower's long-expiry table; the first is released while
+            # the follower is still connected (a hole in that bucket); the second is released by the leader during the gap: the follower's
+            # flush before the transfer from scratch must clear the whole bucket, holes or not
+            trio = [("c09trio%09d" % i, "c09tlid%09d" % i) for i in range(3)]
+            for key, lid in trio:
+                wl._do("lock", "LOCK", key, "LOCK_ID", lid, "TIMEOUT", 0, "EXPRIED", 170 | ZERO_AOF, "COUNT", 0)
+            wl._do("unlock", "UNLOCK", trio[0][0], "LOCK_ID", trio[0][1])
             run.settle("before long gap with a live follower")
             pre = snapshot(cl.fport)
             cl.proxy.cut()
+            wl._do("unlock", "UNLOCK", trio[1][0], "LOCK_ID", trio[1][1])
+            wl._do("unlock", "UNLOCK", trio[2][0], "LOCK_ID", trio[2][1])
             n0 = run.offset()
             wl.until_offset(n0 + cap * 3 + run.rnd.randrange(0, cap))
             for key, lid, _ in list(wl.held)[: (2 * len(wl.held)) // 3]:      # release most of what the follower still holds
